@@ -24,10 +24,10 @@ def patterns(tier):
     sizes = [(1, 1), (1, 2), (2, 1), (2, 2), (2, 3), (3, 2), (3, 3)] if tier == "quick" else [(m, n) for m in range(1, 5) for n in range(1, 5)]
     for m, n in sizes:
         for ql in itertools.product(range(3), repeat=m):
-            if list(ql) != sorted(ql) and tier == "quick" and m * n > 4:
-                continue            # quick: label multisets per side for the larger blocks (order of rows is covered by the 2x2 cases)
+            if list(ql) != sorted(ql) and m * n > (4 if tier == "quick" else 6):
+                continue            # label multisets per side for the larger blocks (every order of rows/columns is covered by the small blocks)
             for qr in itertools.product(range(3), repeat=n):
-                if list(qr) != sorted(qr) and tier == "quick" and m * n > 4:
+                if list(qr) != sorted(qr) and m * n > (4 if tier == "quick" else 6):
                     continue
                 for tot in range(0, 5):
                     if any(a + b == tot for a in ql for b in qr):
